@@ -318,6 +318,21 @@ pub fn run(ctx: Arc<Ctx>) {
 					ctx.trace(1);
 				}
 			}
+			// the same pipeline when the directory it resolves file names against is given relative to the working
+			// directory (a .vpl opened as `maps/overlay.vpl`)
+			if let Some(rel) = std::env::current_dir().ok().and_then(|cwd| work.0.strip_prefix(&cwd).ok().map(|p| p.to_path_buf())) {
+				let rfac = pipeline::factory(vec![], &rel);
+				let rcase = json!({"family": f.name, "files": names, "assignment": assign, "vpl": vpl, "pipeline_directory": rel});
+				match pipeline::build_op(&rt, &rfac, &vpl) {
+					Err(e) => ctx.violation("overlay over container files cannot be built when the pipeline directory is a relative path", &format!("{vpl} in {rel:?}: {e}"), rcase),
+					Ok(op) => {
+						check_overlay(&ctx, &rt, &format!("files {names:?} assignment {assign:?} (relative pipeline directory)"), &vpl, AnySrc::Op(op), 2, &f.coords, &assign, &[0, 0], None, &rcase, if pyramids.len() == 2 { &pyramids } else { &[] });
+						ctx.trace(1);
+					}
+				}
+			} else {
+				ctx.outcome("work directory is not below the current directory: relative pipeline directory not exercised");
+			}
 			for n in names {
 				let _ = std::fs::remove_file(work.0.join(n));
 			}
